@@ -178,21 +178,29 @@ BYTS = [b"", b"a", b"\xff"]
 
 
 @harness(pre=["0 <= op <= 9", "0 <= vt <= 6", "0 <= et <= 4", "0 <= vs <= 4", "0 <= es <= 4", "0 <= vb <= 2", "0 <= eb <= 2",
-              "(-2 <= vi) & (vi <= 3) & (-2 <= ei) & (ei <= 3)"], post="_", timeout=800,
+              "(-2 <= vi) & (vi <= 3) & (-2 <= ei) & (ei <= 3)"], post="_", timeout=300,
          note="operator x field-type x literal-type matrix (10 operators; field: int / str / bytes / None / tuple / Vector3 / "
               "UUID; literal: int / str / bytes / None / tuple; symbolic ints in [-2,3] and <=1-byte bytes (operands of & / ordering are realized), strs from a 5-entry catalogue since CrossHair's ordering of symbolic strs is inexact) through the real "
               "_val_matches: never raises, and is truthy exactly when the comparison holds under Python semantics (an "
               "inapplicable comparison is simply false)", covers=(_L + "AbstractMessageLogEntry._val_matches",))
 def val_matches_matrix(op: int, vt: int, vi: int, vs: int, vb: int, et: int, ei: int, es: int, eb: int) -> bool:
     op, vt, et = OPS[small(op, 0, 9)], small(vt, 0, 6), small(et, 0, 4)
-    val = pick_value(vt, vi, STRS[small(vs, 0, 4)], BYTS[small(vb, 0, 2)])
-    expected = pick_value(et, ei, STRS[small(es, 0, 4)], BYTS[small(eb, 0, 2)])
+    if vt in (4, 5) and et == 0:
+        ei = small(ei, -2, 3)        # int-vs-float-tuple membership makes the engine wander: decide it per value
+    # only the selector the chosen type uses is concretized (the others do not multiply the paths)
+    val = pick_value(vt, vi, STRS[small(vs, 0, 4)] if vt == 1 else "", BYTS[small(vb, 0, 2)] if vt == 2 else b"")
+    expected = pick_value(et, ei, STRS[small(es, 0, 4)] if et == 1 else "", BYTS[small(eb, 0, 2)] if et == 2 else b"")
     got = _ENTRY._val_matches(op, val, LiteralValue(expected))
     norm_val = val if isinstance(val, (int, float, bytes, str, type(None), tuple, Vector3)) else str(val)
     return bool(got) == py_semantics(op, norm_val, expected)
 
 
-shard(val_matches_matrix, "op", range(10), ["eq", "ne", "startswith", "endswith", "contains", "lt", "le", "gt", "ge", "and"], globals())
+for _sh in shard(val_matches_matrix, "op", range(10), ["eq", "ne", "startswith", "endswith", "contains", "lt", "le", "gt", "ge", "and"],
+                 globals()):
+    # second level: one obligation per (operator, field type) so that no single obligation dominates the wall time
+    shard(_sh, "vt", range(7), ["int", "str", "bytes", "none", "tuple", "vector", "uuid"], globals())
+    del globals()[_sh.__name__]
+del _sh
 
 
 @harness(pre=["0 <= op <= 9", "0 <= et <= 2", "len(msg) <= 2", "len(es) <= 2", "(-2 <= ty) & (ty <= 4) & (-2 <= ch) & (ch <= 4)",
